@@ -7,13 +7,17 @@
         router specification on the routes registered so far ([match_spec_g]: the accepted routes,
         and the rejected attempts as ghosts that can shadow but never be selected) — i.e. what a
         fresh Mux with the same registration attempts would answer, independent of every earlier
-        or concurrent request; Handle accepts exactly what [accepts] says;
+        or concurrent request; OR, consistently within the history, [match_spec] on the accepted
+        routes alone (an implementation whose rejected Handle leaves nothing behind is as good);
+        Handle accepts exactly what [accepts] says;
       - W.Status is 0 at handler entry;
       - GetID() is [prefix ++ base36(t)] with t >= 1, different from every id seen before in the
         history, and over the whole history t <= number of requests;
       - constant during the request: at handler exit and in the relay after the handler, who / every
-        RouteParam / RouteParamAny / GetID are what they were at entry, and W.Status is what the
-        request itself last made it (WriteHeader code; Flush: 200 if it was 0).
+        RouteParam / RouteParamAny / GetID are what they were at entry, and W.Status is what was
+        read back after the request's own last action on its writer (an [EvWrite]: the harness
+        logs the status it reads right after WriteHeader / Flush / installing a wrapper, so that
+        no particular recording policy of the writer is demanded).
     MODEL: the LTS of Model/StorePool.v is run on the same events (sync.Pool.Get modelled as
     "most recently Put Store, else New") and must show the same observations. *)
 From Coq Require Import List NArith Bool Arith.
@@ -25,7 +29,7 @@ Record cobs := { co_who : who; co_status : N; co_id : list N; co_any : list N; c
 Inductive ev :=
 | EvRegister (p m : list N) (accepted : bool)           (* Handle returned / panicked and the caller recovered *)
 | EvBegin (k : nat) (path method : list N) (o : cobs)   (* everything read at handler entry *)
-| EvWrite (k : nat) (code : N)                          (* the request's handler or relay set W.Status *)
+| EvWrite (k : nat) (code : N)                          (* W.Status read back after an own action of the request changed it *)
 | EvFlush (k : nat)                                     (* the handler called W.Flush() *)
 | EvExit (k : nat) (o : cobs)                           (* everything read again at handler exit *)
 | EvAfter (k : nat) (how : exit_kind) (o : cobs).       (* ... and again by the relay after the handler returned or
@@ -55,13 +59,18 @@ Fixpoint mem_N (x : N) (l : list N) : bool :=
 
 (** ** replay state *)
 Record rstate := {
-  r_mux : mux;                          (* the model *)
-  r_model_ok : bool;                    (* the model could follow every event so far and agreed *)
+  r_mux : mux;                          (* the model, rejected registrations leaving their nodes behind (what HEAD does) *)
+  r_model_ok : bool;                    (* that model could follow every event so far and agreed *)
+  r_mux_c : mux;                        (* the model of an implementation whose rejected Handle leaves NOTHING behind *)
+  r_model_ok_c : bool;
+  r_variant : option bool;              (* which of the two the implementation has shown to be: [Some true] residue kept,
+                                           [Some false] nothing kept, [None] no request has told them apart yet *)
   r_routes : list (list N * list N);    (* specification: routes accepted so far *)
   r_ghosts : list (list pseg);          (* ... and what the rejected attempts left behind *)
   r_tickets : list N;                   (* tickets of all ids seen so far *)
   r_entry : list (nat * cobs);          (* requests in flight: what they read at entry, status updated by their own writes *)
-  r_begins : N                          (* number of requests begun *)
+  r_begins : N;                         (* number of requests begun *)
+  r_rejects_more : nat                  (* registrations the implementation rejected although the specification accepts them *)
 }.
 
 Fixpoint assoc_nat (k : nat) (l : list (nat * cobs)) : option cobs :=
@@ -115,18 +124,22 @@ Definition model_agrees (sequential : bool) (m : mux) (k : nat) (names : list (l
   | None => false
   end.
 
-Definition model_step (s : rstate) (l : label) (after : mux -> bool) : mux * bool :=
-  if r_model_ok s then
-    match step (r_mux s) l with
+Definition mstep (ok : bool) (m : mux) (l : label) (after : mux -> bool) : mux * bool :=
+  if ok then
+    match step m l with
     | Ok m' => (m', after m')
-    | _ => (r_mux s, false)
+    | _ => (m, false)
     end
-  else (r_mux s, false).
+  else (m, false).
 
 (** one event: [None] = the specification fails here *)
-Definition mk (s : rstate) (m' : mux) (ok : bool) (entry : list (nat * cobs)) : rstate :=
-  {| r_mux := m'; r_model_ok := ok; r_routes := r_routes s; r_ghosts := r_ghosts s; r_tickets := r_tickets s;
-     r_entry := entry; r_begins := r_begins s |}.
+Definition mk (s : rstate) (mr mc : mux * bool) (entry : list (nat * cobs)) : rstate :=
+  {| r_mux := fst mr; r_model_ok := snd mr; r_mux_c := fst mc; r_model_ok_c := snd mc; r_variant := r_variant s;
+     r_routes := r_routes s; r_ghosts := r_ghosts s; r_tickets := r_tickets s;
+     r_entry := entry; r_begins := r_begins s; r_rejects_more := r_rejects_more s |}.
+(** the same label in both models *)
+Definition both (s : rstate) (l : label) (after : mux -> bool) : (mux * bool) * (mux * bool) :=
+  (mstep (r_model_ok s) (r_mux s) l after, mstep (r_model_ok_c s) (r_mux_c s) l after).
 
 Definition spec_obs_g (routes : list (list N * list N)) (ghosts : list (list pseg)) (names : list (list N))
            (path method : list N) : obs :=
@@ -137,53 +150,80 @@ Definition spec_obs_g (routes : list (list N * list N)) (ghosts : list (list pse
   | None => {| o_who := WNoRoute; o_any := []; o_vals := map (fun _ => []) names |}
   end.
 
+(** A rejected Handle may or may not leave trie nodes behind: the property speaks about the registered routes, so an
+    implementation that validates the whole pattern before it inserts anything is as good as HEAD.  Dispatch is therefore
+    accepted when it is that of the GHOST specification ([match_spec_g], HEAD) or that of the CLEAN one ([match_spec] on
+    the accepted routes) — but one and the same within a history: the first request that tells them apart fixes
+    [r_variant].  Everything else (status 0, id, values of the selected route, nothing from earlier requests) is judged
+    the same in both. *)
 Definition check_ev (prefix : list N) (sequential : bool) (names : list (list N)) (s : rstate) (e : ev)
   : option rstate :=
   match e with
   | EvRegister p m accepted =>
-    if Bool.eqb (accepts (r_routes s) (p, m)) accepted then
-      let model_accepts := match handle (m_table (r_mux s)) p m with Some _ => true | None => false end in
-      let (m', ok) := model_step s (LRegister p m) (fun _ => Bool.eqb model_accepts accepted) in
-      Some {| r_mux := m'; r_model_ok := ok;
+    let spec_accepts := accepts (r_routes s) (p, m) in
+    if accepted && negb spec_accepts then None        (* it ACCEPTED a duplicate / a bad :name / an unknown method *)
+    else if negb accepted && spec_accepts then
+      (* a stricter implementation: the property is about the routes that WERE registered; specification and both
+         models follow the implementation's decision (the route is simply not there) *)
+      Some {| r_mux := r_mux s; r_model_ok := r_model_ok s; r_mux_c := r_mux_c s; r_model_ok_c := r_model_ok_c s;
+              r_variant := r_variant s; r_routes := r_routes s; r_ghosts := r_ghosts s; r_tickets := r_tickets s;
+              r_entry := r_entry s; r_begins := r_begins s; r_rejects_more := S (r_rejects_more s) |}
+    else
+      let acc (t : table) := match handle t p m with Some _ => true | None => false end in
+      let mr := mstep (r_model_ok s) (r_mux s) (LRegister p m) (fun _ => Bool.eqb (acc (m_table (r_mux s))) accepted) in
+      let mc := if accepted
+                then mstep (r_model_ok_c s) (r_mux_c s) (LRegister p m) (fun _ => Bool.eqb (acc (m_table (r_mux_c s))) accepted)
+                else (r_mux_c s, r_model_ok_c s && Bool.eqb (acc (m_table (r_mux_c s))) accepted) in
+      Some {| r_mux := fst mr; r_model_ok := snd mr; r_mux_c := fst mc; r_model_ok_c := snd mc; r_variant := r_variant s;
               r_routes := if accepted then r_routes s ++ [(p, m)] else r_routes s;
               r_ghosts := if accepted then r_ghosts s
                           else match ghost_of (p, m) with Some g => r_ghosts s ++ [g] | None => r_ghosts s end;
-              r_tickets := r_tickets s; r_entry := r_entry s; r_begins := r_begins s |}
-    else None
+              r_tickets := r_tickets s; r_entry := r_entry s; r_begins := r_begins s; r_rejects_more := r_rejects_more s |}
   | EvBegin k path method o =>
-    let expect := spec_obs_g (r_routes s) (r_ghosts s) names path method in
-    match id_ticket prefix (co_id o) with
-    | Some t =>
-      if obs_eqb expect {| o_who := co_who o; o_any := co_any o; o_vals := co_vals o |}
-         && (co_status o =? 0)%N
-         && negb (mem_N t (r_tickets s))
+    let seen := {| o_who := co_who o; o_any := co_any o; o_vals := co_vals o |} in
+    let is_g := obs_eqb (spec_obs_g (r_routes s) (r_ghosts s) names path method) seen in
+    let is_c := obs_eqb (spec_obs (r_routes s) names path method) seen in
+    let variant' :=
+      match r_variant s with
+      | Some true => if is_g then Some (Some true) else None
+      | Some false => if is_c then Some (Some false) else None
+      | None => if is_g && is_c then Some None
+                else if is_g then Some (Some true)
+                else if is_c then Some (Some false)
+                else None
+      end in
+    match variant', id_ticket prefix (co_id o) with
+    | Some v, Some t =>
+      if (co_status o =? 0)%N && negb (mem_N t (r_tickets s))
       then
-        let (m', ok) := model_step s (LBegin k (lifo_choice (r_mux s)) path method)
-                                   (fun m' => model_agrees sequential m' k names o) in
-        Some {| r_mux := m'; r_model_ok := ok; r_routes := r_routes s; r_ghosts := r_ghosts s; r_tickets := t :: r_tickets s;
-                r_entry := (k, o) :: r_entry s; r_begins := (r_begins s + 1)%N |}
+        let (mr, mc) := both s (LBegin k (lifo_choice (r_mux s)) path method)
+                             (fun m' => model_agrees sequential m' k names o) in
+        Some {| r_mux := fst mr; r_model_ok := snd mr; r_mux_c := fst mc; r_model_ok_c := snd mc; r_variant := v;
+                r_routes := r_routes s; r_ghosts := r_ghosts s; r_tickets := t :: r_tickets s;
+                r_entry := (k, o) :: r_entry s; r_begins := (r_begins s + 1)%N; r_rejects_more := r_rejects_more s |}
       else None
-    | None => None
+    | _, _ => None
     end
   | EvWrite k code =>
     match assoc_nat k (r_entry s) with
     | Some _ =>
-      let (m', ok) := model_step s (LWrite k (WriteHeader code)) (fun _ => true) in
-      Some (mk s m' ok (update_nat k (set_status code) (r_entry s)))
+      let (mr, mc) := both s (LWrite k (WriteHeader code)) (fun _ => true) in
+      Some (mk s mr mc (update_nat k (set_status code) (r_entry s)))
     | None => None
     end
   | EvFlush k =>
     match assoc_nat k (r_entry s) with
     | Some _ =>
-      let (m', ok) := model_step s (LWrite k Flush) (fun _ => true) in
-      Some (mk s m' ok (update_nat k (fun o => set_status (apply_wop Flush (co_status o)) o) (r_entry s)))
+      let (mr, mc) := both s (LWrite k Flush) (fun _ => true) in
+      Some (mk s mr mc (update_nat k (fun o => set_status (apply_wop Flush (co_status o)) o) (r_entry s)))
     | None => None
     end
   | EvExit k o =>
     match assoc_nat k (r_entry s) with
     | Some o0 =>
       if cobs_eqb o0 o then
-        Some (mk s (r_mux s) (r_model_ok s && model_agrees sequential (r_mux s) k names o) (r_entry s))
+        Some (mk s (r_mux s, r_model_ok s && model_agrees sequential (r_mux s) k names o)
+                   (r_mux_c s, r_model_ok_c s && model_agrees sequential (r_mux_c s) k names o) (r_entry s))
       else None
     | None => None
     end
@@ -191,33 +231,49 @@ Definition check_ev (prefix : list N) (sequential : bool) (names : list (list N)
     match assoc_nat k (r_entry s) with
     | Some o0 =>
       if cobs_eqb o0 o then
-        let agrees := model_agrees sequential (r_mux s) k names o in
-        let (m', ok) := model_step s (LEnd k how) (fun _ => agrees) in
-        Some (mk s m' ok (remove_nat k (r_entry s)))
+        let ar := model_agrees sequential (r_mux s) k names o in
+        let ac := model_agrees sequential (r_mux_c s) k names o in
+        let mr := mstep (r_model_ok s) (r_mux s) (LEnd k how) (fun _ => ar) in
+        let mc := mstep (r_model_ok_c s) (r_mux_c s) (LEnd k how) (fun _ => ac) in
+        Some (mk s mr mc (remove_nat k (r_entry s)))
       else None
     | None => None
     end
   end.
 
+(** the model agrees: the one of the variant the implementation showed, either if no request told them apart *)
+Definition model_verdict (s : rstate) : bool :=
+  match r_variant s with
+  | Some true => r_model_ok s
+  | Some false => r_model_ok_c s
+  | None => r_model_ok s || r_model_ok_c s
+  end.
+(** the implementation's rejected registrations left nothing behind where HEAD's would have mattered: not an error *)
+Definition residue_differs (s : rstate) : bool :=
+  match r_variant s with Some false => true | _ => false end.
+Definition stricter (s : rstate) : bool := match r_rejects_more s with O => false | _ => true end.
+
 Fixpoint check_evs (prefix : list N) (sequential : bool) (names : list (list N)) (s : rstate) (evs : list ev) (i : nat)
-  : verdict * nat :=
+  : verdict * nat * (bool * bool) :=
   match evs with
   | [] =>
     (* over the whole history every ticket is at most the number of requests *)
     if forallb (fun t => (t <=? r_begins s)%N) (r_tickets s)
-    then (if r_model_ok s then (VOk, 0) else (VMismatch, 0))
-    else (VSpecFail, i)
+    then (if model_verdict s then (VOk, 0, (residue_differs s, stricter s)) else (VMismatch, 0, (residue_differs s, stricter s)))
+    else (VSpecFail, i, (false, false))
   | e :: rest =>
     match check_ev prefix sequential names s e with
     | Some s' => check_evs prefix sequential names s' rest (S i)
-    | None => (VSpecFail, i)
+    | None => (VSpecFail, i, (false, false))
     end
   end.
 
 Definition check_history (prefix : list N) (sequential : bool) (names : list (list N)) (evs : list ev)
-  : verdict * nat :=
+  : verdict * nat * (bool * bool) :=
   check_evs prefix sequential names
-            {| r_mux := new_mux prefix; r_model_ok := true; r_routes := []; r_ghosts := []; r_tickets := [];
-               r_entry := []; r_begins := 0%N |} evs 0.
+            {| r_mux := new_mux prefix; r_model_ok := true; r_mux_c := new_mux prefix; r_model_ok_c := true; r_variant := None;
+               r_routes := []; r_ghosts := []; r_tickets := []; r_entry := []; r_begins := 0%N; r_rejects_more := 0 |} evs 0.
 
-Definition history_ok (v : verdict * nat) : bool := match fst v with VOk => true | _ => false end.
+(** third component: (dispatch followed the clean specification where HEAD's residue would have shown,
+    Handle rejected registrations the specification accepts) — both tolerated *)
+Definition history_ok (v : verdict * nat * (bool * bool)) : bool := match fst (fst v) with VOk => true | _ => false end.
